@@ -27,7 +27,7 @@ def check(run):
         seed = run.seed * 1000 + i
         line = "thr %d %d %d" % (n, nrec, seed)
         try:
-            p = subprocess.run([exe, "thr"], input=line + "\n", stdout=subprocess.PIPE, stderr=subprocess.PIPE, text=True, env=env, timeout=300)
+            p = subprocess.run([exe, "thr"], input=line + "\n", stdout=subprocess.PIPE, stderr=subprocess.PIPE, text=True, errors="replace", env=env, timeout=300)
             out, err, rc = p.stdout.strip(), p.stderr, p.returncode
         except subprocess.TimeoutExpired:
             out, err, rc = "", "TIMEOUT", -1
@@ -58,6 +58,6 @@ def replay(run, data):
     run.lean()
     exe = vlib.build_harness("tsan")
     for f in data.get("failures", []):
-        p = subprocess.run([exe, "thr"], input=f["case"] + "\n", stdout=subprocess.PIPE, stderr=subprocess.PIPE, text=True)
+        p = subprocess.run([exe, "thr"], input=f["case"] + "\n", stdout=subprocess.PIPE, stderr=subprocess.PIPE, text=True, errors="replace")
         print(f["case"], p.stdout[:300], p.stderr[:1500])
     return 0
